@@ -187,6 +187,12 @@ func runCheck(prop, tier string, rebaseline bool) int {
 	ld.bindSpecial()
 	run.Assume = specs.Assumes
 	pruneQueryFiles(2 * time.Hour)
+	expectedProved = map[string]bool{}
+	if !rebaseline {
+		for _, n := range loadBaseline()[prop] {
+			expectedProved[n] = true
+		}
+	}
 	if !rebaseline {
 		loadPinnedTables()
 		for _, name := range specs.Order {
